@@ -1,6 +1,7 @@
 import Preflate.Driver.Wire
 import Preflate.Driver.CodecWire
 import Preflate.Driver.ContainerWire
+import Preflate.Driver.AnalyzeWire
 open Preflate Preflate.Driver
 
 def handle (line : String) : String :=
@@ -10,6 +11,8 @@ def handle (line : String) : String :=
   | ["spec", d] => specLine (unhex d)
   | "scan" :: f :: _ :: entries => scanLine (unhex f) entries
   | "recreateio" :: c :: rs :: ws :: _ :: entries => recreateIoLine (unhex c) rs ws entries
+  | "analyze" :: rest => analyzeLine rest
+  | "analyzefull" :: rest => analyzeFullLine rest
   | "codec" :: ops => (match parseOps ops with | some o => codecLine o | none => "bad-request")
   | "events" :: ops => (match parseOps ops with | some o => eventsLine o | none => "bad-request")
   | _ => "bad-request"
